@@ -254,8 +254,8 @@ func (g *engineGen) plan() *PlanSpec {
 	nb := 1 + g.r.IntN(g.MaxBlocks)
 	for b := 0; b < nb; b++ {
 		bs := BlockSpec{}
-		bs.Conc = g.r.IntN(g.ConcMax + 1) // 0 = unset
-		bs.Tol = []int{-1, 0, 0, 1, 2}[g.r.IntN(5)]
+		bs.Conc = g.r.IntN(g.ConcMax + 1)                             // 0 = unset
+		bs.Tol = []int{-1, 0, 0, 1, 2, -2, 0, 1, -7, 2}[g.r.IntN(10)] // any negative value tolerates every failure, not only -1
 		bs.Bypass = g.group(pc*0.4, 0.6, false)
 		bs.Pre = g.group(pc, g.PCheckBad, false)
 		bs.Cont = g.group(contP, 0, true)
